@@ -144,11 +144,21 @@ pub enum Item {
     Ret { slot: Simple },
     /// bytes that are never executed (only after an unconditional transfer)
     Junk { bytes: Vec<u8> },
+    /// x86 / amd64: OVERLAPPING DECODINGS.  An instruction with a 4- or 8-byte immediate (`outer`:
+    /// form % 3 = 0 `mov r32, imm32`, 1 `alu r, imm32`, 2 `movabs r64, imm64` on amd64) whose
+    /// immediate bytes are themselves instructions: `payload` instructions as far as they fit,
+    /// 1-byte nops for the rest, then (end % 5) 0 nothing (the inner stream re-synchronises at the end of the outer
+    /// instruction), 1 `ret`, 2 `jmp +0`, 3 `jcc +0`, 4 the opcode byte of a `mov r32, imm32` that
+    /// swallows the next four bytes of the outer stream (the `follow` instructions, emitted by
+    /// this item as ordinary instructions).  Falling into the item executes the outer instruction;
+    /// every direct branch to the item lands on the FIRST BYTE OF THE IMMEDIATE.  On the other
+    /// ISAs the item is the plain instruction `outer`.
+    Overlap { outer: Simple, payload: Vec<Simple>, end: u8, cc: u8, follow: Vec<Simple> },
 }
 
 impl Item {
     pub fn is_transfer(&self) -> bool {
-        !matches!(self, Item::S(_) | Item::SetDisp { .. } | Item::Junk { .. })
+        !matches!(self, Item::S(_) | Item::SetDisp { .. } | Item::Junk { .. } | Item::Overlap { .. })
     }
     pub fn ends_flow(&self) -> bool {
         matches!(self, Item::Jmp { .. } | Item::Dispatch { .. } | Item::Ret { .. })
@@ -193,6 +203,9 @@ pub struct Insn {
     pub item: usize,
     /// mips: this instruction sits in the delay slot of the previous one
     pub is_slot: bool,
+    /// x86: this instruction starts INSIDE another instruction of the program (an overlapping
+    /// decoding); such instructions follow the sequential ones in `insns`
+    pub inner: bool,
     pub text: String,
 }
 
@@ -200,7 +213,10 @@ pub struct Insn {
 pub struct Program {
     pub isa: Isa,
     pub base: u64,
+    /// the sequential instruction stream in address order (`..main_len`), then the instructions of
+    /// the overlapping decodings
     pub insns: Vec<Insn>,
+    pub main_len: usize,
     /// item index -> index of its first instruction
     pub item_first: Vec<usize>,
     pub bytes: Vec<u8>,
@@ -451,11 +467,12 @@ struct Raw {
     kind: Kind,
     target: Option<u64>,
     is_slot: bool,
+    inner: bool,
     text: String,
 }
 
 fn raw(bytes: Vec<u8>, kind: Kind, target: Option<u64>, text: String) -> Raw {
-    Raw { bytes, kind, target, is_slot: false, text }
+    Raw { bytes, kind, target, is_slot: false, inner: false, text }
 }
 
 fn word(isa: Isa, w: u32) -> Vec<u8> {
@@ -473,7 +490,125 @@ fn mips_slot(isa: Isa, slot: &Simple, forbid: Option<u8>) -> Raw {
         _ => slot.clone(),
     };
     let (w, text) = mips_simple(isa, &s);
-    Raw { bytes: word(isa, w), kind: Kind::Plain, target: None, is_slot: true, text }
+    Raw { bytes: word(isa, w), kind: Kind::Plain, target: None, is_slot: true, inner: false, text }
+}
+
+/// `cands` as far as they fit into `cap` bytes, then 1-byte nops
+fn x86_fill(isa: Isa, cands: &[Simple], cap: usize) -> Vec<(Vec<u8>, String)> {
+    let mut out = Vec::new();
+    let mut left = cap;
+    for s in cands {
+        let (b, t) = x86_simple(isa, s);
+        if b.len() <= left {
+            left -= b.len();
+            out.push((b, t));
+        }
+    }
+    while left > 0 {
+        out.push((vec![0x90], "nop1".into()));
+        left -= 1;
+    }
+    out
+}
+
+/// An overlapping-decodings item on x86 / amd64 at address `at`: the instructions of the
+/// sequential stream (the outer instruction, then what the last inner instruction swallows) and
+/// the instructions that start inside the outer one, with their offsets from `at`.  Everything is
+/// assembled here; nothing is taken from a disassembler.
+fn x86_overlap(isa: Isa, item: &Item, at: u64) -> (Vec<Raw>, Vec<(u64, Raw)>) {
+    let Item::Overlap { outer, payload, end, cc, follow } = item else { unreachable!() };
+    let m64 = isa == Isa::Amd64;
+    let rd = isa.reg(outer.rd);
+    let form = if m64 { outer.form % 3 } else { outer.form % 2 };
+    let w = m64 && outer.wide && form == 1;
+    let mut head = Vec::new();
+    let (cap, mn) = match form {
+        0 => {
+            x86_rex(m64, false, 0, rd, &mut head);
+            head.push(0xb8 + (rd & 7));
+            (4usize, format!("mov {},", x86_rname(m64, false, rd)))
+        }
+        1 => {
+            let (ext, mn) = X86_ALU_RI[outer.op as usize % 6];
+            x86_rex(m64, w, 0, rd, &mut head);
+            head.push(0x81);
+            head.push(modrm(3, ext, rd));
+            (4usize, format!("{} {}, dword", mn, x86_rname(m64, w, rd)))
+        }
+        _ => {
+            x86_rex(m64, true, 0, rd, &mut head);
+            head.push(0xb8 + (rd & 7));
+            (8usize, format!("movabs {},", x86_rname(m64, true, rd)))
+        }
+    };
+    let off0 = head.len() as u64;
+    let outer_len = off0 + cap as u64;
+    let next = at + outer_len;
+    let end = *end % 5;
+    let tail_len = [0usize, 1, 2, 2, 1][end as usize];
+    let mut inner: Vec<(u64, Raw)> = Vec::new();
+    let mut imm: Vec<u8> = Vec::new();
+    for (b, t) in x86_fill(isa, payload, cap - tail_len) {
+        let mut r = raw(b.clone(), Kind::Plain, None, t);
+        r.inner = true;
+        inner.push((off0 + imm.len() as u64, r));
+        imm.extend_from_slice(&b);
+    }
+    let mut after: Vec<Raw> = Vec::new();
+    let o = off0 + imm.len() as u64;
+    let mut last = match end {
+        0 => None,
+        1 => {
+            imm.push(0xc3);
+            Some(raw(vec![0xc3], Kind::Ret, None, "ret".into()))
+        }
+        2 => {
+            imm.extend_from_slice(&[0xeb, 0x00]);
+            Some(raw(vec![0xeb, 0x00], Kind::Jmp, Some(next), format!("jmp 0x{:x}", next)))
+        }
+        3 => {
+            let c = X86_CC[*cc as usize % X86_CC.len()];
+            imm.extend_from_slice(&[0x70 + c, 0x00]);
+            Some(raw(vec![0x70 + c, 0x00], Kind::Cond, Some(next), format!("j{} 0x{:x}", X86_CC_NAME[c as usize], next)))
+        }
+        _ => {
+            // `mov r32, imm32` whose immediate is the next four bytes of the sequential stream
+            let r = isa.reg(*cc);
+            let r = if r >= 8 { 0 } else { r };
+            imm.push(0xb8 + r);
+            let mut b = vec![0xb8 + r];
+            for (fb, ft) in x86_fill(isa, follow, 4) {
+                b.extend_from_slice(&fb);
+                after.push(raw(fb, Kind::Plain, None, ft));
+            }
+            let v = u32::from_le_bytes([b[1], b[2], b[3], b[4]]);
+            Some(raw(b, Kind::Plain, None, format!("mov {}, 0x{:x}", x86_rname(m64, false, r), v)))
+        }
+    };
+    if let Some(mut r) = last.take() {
+        r.inner = true;
+        inner.push((o, r));
+    }
+    debug_assert_eq!(imm.len(), cap);
+    let mut v: u64 = 0;
+    for (k, b) in imm.iter().enumerate() {
+        v |= (*b as u64) << (8 * k);
+    }
+    let mut bytes = head;
+    bytes.extend_from_slice(&imm);
+    let mut main = vec![raw(bytes, Kind::Plain, None, format!("{} 0x{:x}", mn, v))];
+    main.extend(after);
+    (main, inner)
+}
+
+/// byte offset, inside an overlapping-decodings item, of the first inner instruction: where every
+/// direct branch to the item lands
+fn overlap_offset(isa: Isa, item: &Item) -> u64 {
+    if isa.is_x86() && matches!(item, Item::Overlap { .. }) {
+        x86_overlap(isa, item, 0).1.first().map(|x| x.0).unwrap_or(0)
+    } else {
+        0
+    }
 }
 
 /// Emit the native instructions of one item.  `at` is the address of the item's first
@@ -536,11 +671,12 @@ fn emit(isa: Isa, item: &Item, at: u64, tgt: u64, near: bool, disp: [u64; 2]) ->
             }
             Item::Ret { .. } => vec![raw(vec![0xc3], Kind::Ret, None, "ret".into())],
             Item::Junk { bytes } => vec![raw(bytes.clone(), Kind::Junk, None, format!("junk {:02x?}", bytes))],
+            Item::Overlap { .. } => x86_overlap(isa, item, at).0,
         },
         Isa::Mips | Isa::Mipsel => {
             let off = |a: u64| -> u16 { ((rel(tgt, a + 4) >> 2) as i16) as u16 };
             match item {
-                Item::S(s) => {
+                Item::S(s) | Item::Overlap { outer: s, .. } => {
                     let (w, t) = mips_simple(isa, s);
                     vec![raw(word(isa, w), Kind::Plain, None, t)]
                 }
@@ -597,7 +733,7 @@ fn emit(isa: Isa, item: &Item, at: u64, tgt: u64, near: bool, disp: [u64; 2]) ->
         Isa::A64 => {
             let d19 = ((rel(tgt, at) >> 2) as u32) & 0x7ffff;
             match item {
-                Item::S(s) => {
+                Item::S(s) | Item::Overlap { outer: s, .. } => {
                     let (w, t) = a64_simple(isa, s);
                     vec![raw(word(isa, w), Kind::Plain, None, t)]
                 }
@@ -691,9 +827,11 @@ pub fn assemble(isa: Isa, base: u64, items: &[Item], entry_item: usize, disp_ite
         _ => false,
     };
     let mut item_addr = vec![base; n + 1];
-    let resolve = |item_addr: &Vec<u64>, idx: usize, slot: bool| -> u64 {
+    // `branch`: the address a direct branch to the item lands on (inside an overlapping-decodings
+    // item: its first inner instruction); otherwise the item's first instruction
+    let resolve = |item_addr: &Vec<u64>, idx: usize, slot: bool, branch: bool| -> u64 {
         let j = skip_junk(items, idx);
-        item_addr[j] + slot_offset(isa, &items[j], slot)
+        item_addr[j] + slot_offset(isa, &items[j], slot) + if branch { overlap_offset(isa, &items[j]) } else { 0 }
     };
     // layout: lengths depend only on the near flags; widen short x86 branches that do not reach
     for _round in 0..(n + 2) {
@@ -708,7 +846,7 @@ pub fn assemble(isa: Isa, base: u64, items: &[Item], entry_item: usize, disp_ite
         if isa.is_x86() {
             for (i, it) in items.iter().enumerate() {
                 if let (Some(t), false) = (it.target(), near[i]) {
-                    let tgt = resolve(&item_addr, t, false);
+                    let tgt = resolve(&item_addr, t, false, true);
                     let end = item_addr[i + 1];
                     let d = rel(tgt, end);
                     if !(-128..=127).contains(&d) {
@@ -722,8 +860,9 @@ pub fn assemble(isa: Isa, base: u64, items: &[Item], entry_item: usize, disp_ite
             break;
         }
     }
-    let disp = [resolve(&item_addr, disp_items[0], false), resolve(&item_addr, disp_items[1], false)];
+    let disp = [resolve(&item_addr, disp_items[0], false, false), resolve(&item_addr, disp_items[1], false, false)];
     let mut insns = Vec::new();
+    let mut inner_insns = Vec::new();
     let mut item_first = Vec::new();
     let mut bytes = Vec::new();
     let mut disp_addr = None;
@@ -731,9 +870,14 @@ pub fn assemble(isa: Isa, base: u64, items: &[Item], entry_item: usize, disp_ite
         item_first.push(insns.len());
         let at = item_addr[i];
         let tgt = match it.target() {
-            Some(t) => resolve(&item_addr, t, into_slot(it)),
+            Some(t) => resolve(&item_addr, t, into_slot(it), true),
             None => at,
         };
+        if isa.is_x86() && matches!(it, Item::Overlap { .. }) {
+            for (off, r) in x86_overlap(isa, it, at).1 {
+                inner_insns.push(Insn { addr: at + off, bytes: r.bytes, kind: r.kind, target: r.target, item: i, is_slot: false, inner: true, text: r.text });
+            }
+        }
         let mut a = at;
         for r in emit(isa, it, at, tgt, near[i], disp) {
             if r.kind == Kind::Ind {
@@ -741,15 +885,20 @@ pub fn assemble(isa: Isa, base: u64, items: &[Item], entry_item: usize, disp_ite
             }
             let len = r.bytes.len() as u64;
             bytes.extend_from_slice(&r.bytes);
-            insns.push(Insn { addr: a, bytes: r.bytes, kind: r.kind, target: r.target, item: i, is_slot: r.is_slot, text: r.text });
+            insns.push(Insn { addr: a, bytes: r.bytes, kind: r.kind, target: r.target, item: i, is_slot: r.is_slot, inner: false, text: r.text });
             a += len;
         }
     }
     let code_len = bytes.len();
     bytes.extend_from_slice(tail);
-    let by_addr = insns.iter().enumerate().map(|(k, x)| (x.addr, k)).collect();
+    let main_len = insns.len();
+    // an inner instruction starts strictly inside an instruction of the sequential stream: no
+    // address occurs twice
+    insns.extend(inner_insns);
+    let by_addr: BTreeMap<u64, usize> = insns.iter().enumerate().map(|(k, x)| (x.addr, k)).collect();
+    debug_assert_eq!(by_addr.len(), insns.len());
     let entry = item_addr[skip_junk(items, entry_item)];
-    Program { isa, base, insns, item_first, bytes, code_len, entry, by_addr, disp_targets: disp, disp_addr }
+    Program { isa, base, insns, main_len, item_first, bytes, code_len, entry, by_addr, disp_targets: disp, disp_addr }
 }
 
 // ---------------------------------------------------------------------------------------------
@@ -783,9 +932,31 @@ impl Program {
             vec![a]
         }
     }
+    /// address right after the unit starting at k: where it falls through to
+    pub fn unit_end(&self, k: usize) -> u64 {
+        let last = &self.insns[(k + self.unit_len(k) - 1).min(self.insns.len() - 1)];
+        last.addr + last.bytes.len() as u64
+    }
+    /// index of the instruction the unit starting at k falls through to (`insns.len()`: none).
+    /// Decided by ADDRESS: an inner instruction of an overlapping decoding continues with whatever
+    /// instruction starts where it ends.
+    pub fn next_of(&self, k: usize) -> usize {
+        self.by_addr.get(&self.unit_end(k)).copied().unwrap_or(self.insns.len())
+    }
+    /// ground truth: the addresses at which execution can continue after the unit starting at k
+    /// (None: an indirect transfer, a return, junk)
+    pub fn succ_addrs(&self, k: usize) -> Option<Vec<u64>> {
+        let i = &self.insns[k];
+        match i.kind {
+            Kind::Plain => Some(vec![self.unit_end(k)]),
+            Kind::Cond => Some(vec![i.target?, self.unit_end(k)]),
+            Kind::Jmp => Some(vec![i.target?]),
+            Kind::Ind | Kind::Ret | Kind::Junk => None,
+        }
+    }
     /// direct successors (instruction indices) of the unit starting at k
     pub fn unit_succ(&self, k: usize) -> Vec<usize> {
-        let next = k + self.unit_len(k);
+        let next = self.next_of(k);
         let t = self.insns[k].target.and_then(|t| self.by_addr.get(&t).copied());
         match self.insns[k].kind {
             Kind::Plain => vec![next],
@@ -897,8 +1068,7 @@ pub fn shapes(p: &Program, extra_starts: &[u64]) -> Shapes {
                     if t == p.entry {
                         sh.entry_loop = true;
                     }
-                    let next = k + p.unit_len(k);
-                    if i.kind == Kind::Cond && next < p.insns.len() && p.insns[next].addr == t {
+                    if i.kind == Kind::Cond && p.next_of(k) < p.insns.len() && p.unit_end(k) == t {
                         sh.target_fallthrough = true;
                     }
                     if let Some(&tk) = p.by_addr.get(&t) {
@@ -909,16 +1079,16 @@ pub fn shapes(p: &Program, extra_starts: &[u64]) -> Shapes {
                 }
                 break;
             }
-            k += 1;
+            k = p.next_of(k);
         }
     }
+    // addresses some plain instruction falls through to
+    let fallen_into: BTreeSet<u64> = p.insns.iter().filter(|i| i.kind == Kind::Plain && !i.is_slot).map(|i| i.addr + i.bytes.len() as u64).collect();
     for t in targets.iter().chain(extra_starts.iter()) {
-        if let Some(&tk) = p.by_addr.get(t) {
-            if tk > 0 && p.insns[tk - 1].kind == Kind::Plain && !p.insns[tk - 1].is_slot {
-                // the previous instruction falls through into the target: the block that holds it
-                // also covers the target
-                sh.mid_block_target = true;
-            }
+        if p.by_addr.contains_key(t) && fallen_into.contains(t) {
+            // the previous instruction falls through into the target: the block that holds it
+            // also covers the target
+            sh.mid_block_target = true;
         }
     }
     sh.starts = starts.len();
@@ -927,9 +1097,19 @@ pub fn shapes(p: &Program, extra_starts: &[u64]) -> Shapes {
 
 pub fn listing(p: &Program) -> String {
     let mut s = String::new();
-    for i in &p.insns {
+    let mut order: Vec<usize> = (0..p.insns.len()).collect();
+    order.sort_by_key(|k| (p.insns[*k].addr, *k));
+    for k in order {
+        let i = &p.insns[k];
         let hex: String = i.bytes.iter().map(|b| format!("{:02x}", b)).collect();
-        s.push_str(&format!("  {}0x{:x}: {:<22} {}{}\n", if i.addr == p.entry { ">" } else { " " }, i.addr, hex, if i.is_slot { "(slot) " } else { "" }, i.text));
+        let mark = if i.is_slot {
+            "(slot) "
+        } else if i.inner {
+            "(inside the previous instruction) "
+        } else {
+            ""
+        };
+        s.push_str(&format!("  {}0x{:x}: {:<22} {}{}\n", if i.addr == p.entry { ">" } else { " " }, i.addr, hex, mark, i.text));
     }
     s
 }
